@@ -278,7 +278,8 @@ def run_property(prop, tier, seed):
     if tier == 'thorough' and hasattr(mod, 'run_thorough'):
         guarded(mod.run_thorough)
     known0, _f0 = load_known()
-    if any(i['verdict'] != 'pass' and (prop, i['key']) not in known0 for i in res.instances) and not os.environ.get('VERIF_NO_INLINE_VIEW'):
+    if any(i['verdict'] != 'pass' and (prop, i['key']) not in known0 and i['rule'] not in getattr(mod, 'NO_INLINE_VIEW', ()) for i in res.instances) \
+            and not os.environ.get('VERIF_NO_INLINE_VIEW'):
         # Second chance on a semantics-preserving normal form of the program: private helper functions inlined into their callers
         # (a block moved into a helper is the same program).  A rule counts as decided by whichever of the two views it is clean on;
         # if it is clean on neither, the findings on the program as written are reported.
